@@ -5,6 +5,7 @@
 //!   dv list
 
 mod common;
+mod evo;
 mod replay;
 mod rt;
 
@@ -104,6 +105,7 @@ fn main() {
                 "replay" => return replay::run(&mut ctx, &positional),
                 "C01" => rt::c01(&mut ctx, &mut acc),
                 "C02" => rt::c02(&mut ctx, &mut acc),
+                "C03" => evo::c03(&mut ctx, &mut acc),
                 "C04" => rt::c04(&mut ctx, &mut acc),
                 "C07" => rt::c07(&mut ctx, &mut acc),
                 "C08" => rt::c08(&mut ctx, &mut acc),
